@@ -328,6 +328,7 @@ func (tst *tsTable) replaceSnapshot(next *snapshot) {
 		tst.snapshot.decRef()
 	}
 	tst.snapshot = next
+	verifSnapshotReplaced(tst, next)
 }
 
 func (tst *tsTable) currentEpoch() uint64 {
